@@ -228,7 +228,68 @@ def _analyse(name, tier, res):
             res["unknown"].append((tag, f"encoder: {e}"))
 
 
+def analyse_export(tkey, tier):
+    """export path: Network.export(solver, method) -> naunet_config.toml -> `naunet render` in the exported directory:
+    the recorded solver selection is the requested one and the re-rendered right-hand side / Jacobian layout
+    are those of the direct rendering with that back-end"""
+    res = {"case": f"export:{tkey}", "ok": [], "unknown": [], "viol": [], "errors": [], "notes": [], "samples": [], "solver_s": 0.0, "programs": 0, "functions": []}
+    try:
+        import tomlkit
+
+        tgt = dict(proj.TARGETS[tkey])
+        tdir = tgt["dir"]
+        req = example_request("minimal")
+        base = {"network": {"filelist": [os.path.join(req["srcdir"], f) for f in req["files"]], "fileformats": req["formats"], "elements": req["elements"], "pseudo_elements": req["pseudo_elements"],
+                            "ode_modifier": {"H": {"factors": ["2.0*zeta"], "reactants": [["C", "CH"]]}}}}
+        direct = proj.render(f"c20-export-{tkey}", dict(base, targets=[tgt], ops=[{"op": "export", "name": tdir, "prefix": "exp", "solver": tgt["solver"], "method": tgt["method"]}]))
+        if not direct.ok or not direct.target_ok(tdir):
+            res["unknown"].append((res["case"], f"direct rendering refused: {direct.meta.get('error')}"))
+            return res
+        res["programs"] += 1
+        cfgp = os.path.join(direct.dir, "exp", tdir, "naunet_config.toml")
+        ode_ = tomlkit.loads(open(cfgp).read())["ODEsolver"]
+        for key in ("solver", "method", "device"):
+            nm = f"export:{tkey}:config:{key}"
+            want = tgt.get(key, "cpu")
+            if str(ode_.get(key)) == str(want):
+                res["ok"].append(nm)
+            else:
+                res["viol"].append({"key": nm, "what": f"Network.export(solver={tgt['solver']!r}, method={tgt['method']!r}) writes [ODEsolver] {key} = {ode_.get(key)!r} into naunet_config.toml: `naunet render` in the exported project builds another back-end than the one exported",
+                                    "replay": {"target": tkey, "config": dict(ode_), "requested": {k: tgt.get(k) for k in ("solver", "method", "device")}}})
+        exp = proj.rerender_exported(direct, "exp", tdir)
+        if not exp.ok:
+            res["notes"].append(f"re-render refused: {exp.meta.get('error', '')[-200:]}")
+            return res
+        res["programs"] += 1
+        # the re-rendered project must be a project of the same back-end: same macro table, and the symbolic executor
+        # finds the back-end's entry points with equal right-hand sides
+        try:
+            if exp.macros(tdir) != direct.macros(tdir):
+                res["viol"].append({"key": f"export:{tkey}:macros", "what": "macro table of the re-rendered export differs from the direct rendering", "replay": {"target": tkey}})
+            else:
+                fa, fb = ode.run_fex(direct, tdir), ode.run_fex(exp, tdir)
+                ja, jb = ode.run_jac(direct, tdir), ode.run_jac(exp, tdir)
+                if fb.compile_errors or jb.compile_errors or fa.compile_errors or ja.compile_errors:
+                    res["unknown"].append((f"export:{tkey}:compile", "sources do not lower"))
+                else:
+                    s = z3.Solver()
+                    s.add(inv_axioms())
+                    res["functions"] += [f"{tdir}:Fex", f"{tdir}:Jac"]
+                    for i, (a, b) in enumerate(zip(fa.ydot, fb.ydot)):
+                        if a is None or b is None:
+                            continue
+                        r_ = str(s.check(R(a) != R(b)))
+                        (res["ok"].append(f"export:{tkey}:ydot[{i}]") if r_ == "unsat" else res["viol"].append({"key": f"export:{tkey}:ydot[{i}]", "what": f"right-hand side {i} of the re-rendered export differs from the direct rendering", "replay": {"target": tkey}}) if r_ == "sat" else res["unknown"].append((f"export:{tkey}:ydot[{i}]", r_)))
+        except Inconclusive as e:
+            res["viol"].append({"key": f"export:{tkey}:entry-points", "what": f"the re-rendered export is not a {tkey} project: {str(e)[:200]}", "replay": {"target": tkey, "config": dict(ode_)}})
+    except Exception as e:
+        res["errors"].append(f"{type(e).__name__}: {e}\n{traceback.format_exc()[-1500:]}")
+    return res
+
+
 def _work_inner(a):
+    if a[0].startswith("export:"):
+        return analyse_export(a[0].split(":", 1)[1], a[1])
     return analyse(*a)
 
 
@@ -247,7 +308,7 @@ def main(pid, tier):
     names = list(CASES) + (list(THOROUGH) if tier == "thorough" else [])
     ctx = mp.get_context("fork")
     with cf.ProcessPoolExecutor(max_workers=10, mp_context=ctx) as ex:
-        results = list(ex.map(_work, [(n, tier) for n in names]))
+        results = list(ex.map(_work, [(n, tier) for n in names] + [(f"export:{t}", tier) for t in ("dense", "sparse", "odeint")]))
     for r in results:
         chk.programs += r["programs"]
         chk.solver_s += r["solver_s"]
